@@ -929,6 +929,11 @@ fn graph_info_obs(id: u64, g: &FnGraph<Fun>, lines: &mut Vec<String>) {
     let gr_iter: Vec<usize> = gi.iter_rev().map(|r| index_of(&gi, r)).collect();
     obs("GR", obs_list(&gr_iter));
 
+    // GY: the YAML text itself (the model emits the same text: `Yaml.gi_yaml`), one line, `\n` written as `|`.
+    match serde_yaml_ng::to_string(&gi) {
+        Ok(s) => obs("GY", s.replace('\n', "|")),
+        Err(_) => obs("GY", "E".to_string()),
+    }
     // GS: serde_yaml_ng round trip.
     let round = serde_yaml_ng::to_string(&gi)
         .map_err(|_| ())
